@@ -34,6 +34,7 @@ type OptSpec struct {
 	NegCache     bool   `json:"neg_cache,omitempty"`
 	DirCache     bool   `json:"dir_cache,omitempty"`
 	RLNil        bool   `json:"rl_nil,omitempty"`
+	Log          int    `json:"log,omitempty"` // 0 nil, 1 errors to stderr, 2 a destination that cannot be opened, 3 an unknown format
 }
 
 func (s OptSpec) export() absnfs.ExportOptions {
@@ -55,6 +56,14 @@ func (s OptSpec) export() absnfs.ExportOptions {
 	if !s.RLNil {
 		c := absnfs.DefaultRateLimiterConfig()
 		o.RateLimitConfig = &c
+	}
+	switch s.Log {
+	case 1:
+		o.Log = &absnfs.LogConfig{Level: "error", Format: "text", Output: "stderr"}
+	case 2:
+		o.Log = &absnfs.LogConfig{Level: "error", Format: "text", Output: "/proc/verif-no-such-directory/absnfs.log"}
+	case 3:
+		o.Log = &absnfs.LogConfig{Level: "error", Format: "bogus-format", Output: "stderr"}
 	}
 	return o
 }
@@ -194,6 +203,9 @@ func runC24(t *testing.T, scAny any, trace bool) *Outcome {
 					tu.NegativeCacheTimeout, tu.DirCacheTimeout, tu.DirCacheMaxEntries, tu.DirCacheMaxDirSize = e.NegativeCacheTimeout, e.DirCacheTimeout, e.DirCacheMaxEntries, e.DirCacheMaxDirSize
 					tu.MaxWorkers, tu.MaxConnections, tu.IdleTimeout, tu.SendBufferSize, tu.ReceiveBufferSize = e.MaxWorkers, e.MaxConnections, e.IdleTimeout, e.SendBufferSize, e.ReceiveBufferSize
 					tu.Timeouts = e.Timeouts
+					if e.Log != nil {
+						tu.Log = e.Log
+					}
 				})
 			case "policy":
 				p := absnfs.PolicyOptions{ReadOnly: st.Opt.ReadOnly, Squash: st.Opt.Squash}
@@ -224,6 +236,18 @@ func runC24(t *testing.T, scAny any, trace bool) *Outcome {
 						}
 						if d := diffView(want, got); len(d) > 0 {
 							o.Vio("C24.update-not-defaulted-like-construction", "kind="+st.Kind+","+firstKey(d), "%s: GetExportOptions differs from what construction makes of the same values: %v", name, d)
+						}
+					}
+				}
+				// "GetExportOptions reports the configuration in force": what it reports is what the caches and
+				// the worker pool actually run with
+				if st.Kind != "policy" {
+					if ac := absnfs.VerifAttrCache(w.NFS); ac != nil && ac.MaxSize() != after.AttrCacheSize {
+						o.Vio("C24.reported-setting-not-in-force", "field=AttrCacheSize", "%s: GetExportOptions reports AttrCacheSize=%d, the attribute cache runs with capacity %d", name, after.AttrCacheSize, ac.MaxSize())
+					}
+					if wp := absnfs.VerifWorkerPool(w.NFS); wp != nil {
+						if mw, _, _ := wp.Stats(); mw != after.MaxWorkers {
+							o.Vio("C24.reported-setting-not-in-force", "field=MaxWorkers", "%s: GetExportOptions reports MaxWorkers=%d, the worker pool runs with %d", name, after.MaxWorkers, mw)
 						}
 					}
 				}
@@ -272,7 +296,7 @@ func genOpt(r *simrt.Rand) OptSpec {
 	pick := func(vals ...int) int { return vals[r.Int(len(vals))] }
 	s := OptSpec{TransferSize: pick(0, 0, -1, 1, 512, 65536), AttrTTLms: pick(0, 0, -5, 1, 5000), AttrSize: pick(0, 0, -1, 1, 100), NegTTLms: pick(0, -1, 10),
 		DirTTLms: pick(0, -1, 10), DirMax: pick(0, -1, 5), DirMaxSize: pick(0, -1, 5), MaxWorkers: pick(0, 0, -2, 1, 3), MaxConns: pick(0, -1, 1, 50), IdleMs: pick(0, -1, 60000),
-		SendBuf: pick(0, -1, 4096), RecvBuf: pick(0, -1, 4096), Timeouts: r.Int(5), ReadOnly: r.Pct(20), NegCache: r.Pct(30), DirCache: r.Pct(30), RLNil: r.Pct(50)}
+		SendBuf: pick(0, -1, 4096), RecvBuf: pick(0, -1, 4096), Timeouts: r.Int(5), ReadOnly: r.Pct(20), NegCache: r.Pct(30), DirCache: r.Pct(30), RLNil: r.Pct(50), Log: pick(0, 0, 0, 0, 1, 2, 3)}
 	if r.Pct(20) {
 		// swarm: every scalar field positive, so that only one thing is left to default (the time-outs, the
 		// rate-limit configuration) - the blind spot of a "nothing to default" short cut
@@ -291,6 +315,9 @@ func genC24(r *simrt.Rand, tier string) any {
 	}
 	sc.Init.Squash = []string{"", "root", "none"}[r.Int(3)]
 	sc.Init.ReadOnly = false
+	if sc.Init.Log > 1 {
+		sc.Init.Log = 0 // construction refuses an unusable log configuration; the runtime updates are what is drawn freely
+	}
 	n := 1 + r.Int(6)
 	for i := 0; i < n; i++ {
 		st := C24Step{Kind: []string{"export", "export", "tuning", "policy"}[r.Int(4)], Opt: genOpt(r)}
@@ -319,7 +346,7 @@ func shrinkC24(scAny any) []any {
 
 func init() {
 	Register(&Prop{ID: "C24", Level: "exploration",
-		Rule: "one case = a server constructed from drawn options followed by 1-6 runtime updates (UpdateExportOptions, UpdateTuningOptions, UpdatePolicyOptions) whose numeric and duration fields are drawn from {zero, negative, small, normal}, Timeouts from {nil, all-zero, partial, full, negative} (in 20% of the structs every other scalar is positive, so that the time-outs or the rate-limit configuration are the only thing left to default), RateLimitConfig nil or set, Squash equal, changed, or the same mode in another letter case; after every update: GetExportOptions is compared field by field with what absnfs.New makes of the same option values (differential against construction, no default constants mirrored), every setting in force must be positive, a rejected update must leave GetExportOptions identical, a Squash change must be rejected, and a client on the simulated network must still get LOOKUP, READ (>=1 byte) and WRITE served; in 20% of the cases a second client keeps issuing READs under the seeded scheduler while the updates run - a READ that lands inside an update is served like any other; non-trivial = at least one update; distinct by event digest",
+		Rule: "one case = a server constructed from drawn options followed by 1-6 runtime updates (UpdateExportOptions, UpdateTuningOptions, UpdatePolicyOptions) whose numeric and duration fields are drawn from {zero, negative, small, normal}, Timeouts from {nil, all-zero, partial, full, negative} (in 20% of the structs every other scalar is positive, so that the time-outs or the rate-limit configuration are the only thing left to default), RateLimitConfig nil or set, Log nil / valid / a destination that cannot be opened / an unknown format, Squash equal, changed, or the same mode in another letter case; after every update: GetExportOptions is compared field by field with what absnfs.New makes of the same option values (differential against construction, no default constants mirrored), every setting in force must be positive, the attribute cache's capacity and the worker pool's size must be what GetExportOptions reports, a rejected update must leave GetExportOptions identical, a Squash change must be rejected, and a client on the simulated network must still get LOOKUP, READ (>=1 byte) and WRITE served; in 20% of the cases a second client keeps issuing READs under the seeded scheduler while the updates run - a READ that lands inside an update is served like any other; non-trivial = at least one update; distinct by event digest",
 		Gen:  genC24, New: func() any { return &C24Scn{} }, Run: runC24, Shrink: shrinkC24, Real: seqReal, Stubbed: seqStubbed})
 	_ = nfsclient.NFS3_OK
 }
